@@ -6,6 +6,7 @@ import JunoModel.C06.ProofsRound
 import JunoModel.C06.ProofsStale
 import JunoModel.C06.ProofsFeedConc
 import JunoModel.C06.ProofsPipe
+import JunoModel.C06.ProofsPlugin
 /-!
 C06 — property theorems (obligations). Lemmas, statements for arbitrary code variants and facts
 that merely restate the model are in `Proofs*.lean`; here every theorem is either about the code
@@ -1310,5 +1311,103 @@ example :
   refine ⟨⟨rfl, trivial⟩, by decide, by decide, ?_⟩
   intro s2
   exact ⟨by decide, by decide, by decide⟩
+
+/-! ## Round 6: what a registered plugin is told (`storeTask` → `plugin.NewBlock`, `revertTask` →
+`handlePluginRevertBlock` → `plugin.RevertBlock`), `ModelPlugin.lean` -/
+
+/-- EVERY run of the serial machine (any answers, lies, cancellations, failing `RevertHead`, restarts)
+from a well-formed chain: the plugin is told EXACTLY the commits, in commit order — `NewBlock` once per
+stored block, `RevertBlock(from, to)` once per revert with `from` = the reverted block and `to` = the
+block below it (nil below the genesis) — and nothing else: no call for a refused, cancelled,
+mis-numbered or parent-mismatching delivery, none for a breaking iteration or a reorg check. (A
+`RevertHead` that FAILS has been announced to the plugin all the same: `expectedCalls` counts
+`revertFailed`, see the witness below.) Hypothesis on the inputs: no delivered block names itself as
+its parent (collision-free hash). The plugin's own errors are not inputs of the machine: juno only
+logs them. -/
+theorem plugin_told_exactly_the_commits (cfg : Cfg) (c : Chain) (es : List Ev) (hl : Linked c)
+    (hs : ∀ b ∈ c, b.hash ≠ b.parent)
+    (he : ∀ req b cancelled, Ev.deliver req b cancelled ∈ es → b.hash ≠ b.parent) :
+    Impl.runCalls cfg (Impl.init c) es
+      = expectedCalls (stackOf c) (Impl.run cfg (Impl.init c) es).2 := by
+  apply plugin_run cfg (Impl.init c) es hl hs
+  intro e hm
+  cases e with
+  | deliver req b cancelled => exact he req b cancelled hm
+  | _ => trivial
+
+/-- FOR EVERY SCHEDULE of the goroutines (main loop, fetchers, the two callback goroutines, stream
+generations): `plugin.NewBlock` / `plugin.RevertBlock` are called inside `storeTask` / `revertTask`, i.e.
+inside the events the pipeline logs (`pipeline_run_is_a_serial_run`); what the plugin is told over the
+whole run is the specification applied to everything the PIPELINE committed (`s.obs`). -/
+theorem pipeline_plugin_told_exactly_the_commits (cfg : Cfg) (c : Chain) (hl : Linked c)
+    (hs : ∀ b ∈ c, b.hash ≠ b.parent) (acts : List Pipe.Act)
+    (he : ∀ req b cancelled,
+      Ev.deliver req b cancelled ∈ (Pipe.run cfg (Pipe.St.init c) acts).evs → b.hash ≠ b.parent) :
+    let s := Pipe.run cfg (Pipe.St.init c) acts
+    Impl.runCalls cfg (Impl.init c) s.evs = expectedCalls (stackOf c) s.obs := by
+  intro s
+  have hc : Pipe.Consec c := by
+    clear hs he s
+    induction c with
+    | nil => trivial
+    | cons b tl ih =>
+      cases tl with
+      | nil => trivial
+      | cons b' tl' => exact ⟨hl.1, ih hl.2.2⟩
+  rw [← (pipeline_run_is_a_serial_run cfg c hc acts).2]
+  exact plugin_told_exactly_the_commits cfg c s.evs hl hs he
+
+/-- Every state with a well-formed chain, every event: the calls of that ONE event are the
+specification applied to what the event commits (so between two events the plugin has seen exactly
+the commits so far), and well-formedness is kept. -/
+theorem plugin_calls_of_one_event (cfg : Cfg) (s : Impl) (e : Ev) (hl : Linked s.node.chain)
+    (hs : NoSelf s.node.chain) (he : EvNoSelf e) :
+    s.pluginCalls cfg e = expectedCalls (stackOf s.node.chain) (s.step cfg e).2 ∧
+    Linked (s.step cfg e).1.node.chain ∧ NoSelf (s.step cfg e).1.node.chain :=
+  let ⟨h1, _, h3, h4⟩ := plugin_step cfg s e hl hs he
+  ⟨h1, h3, h4⟩
+
+/-- `handlePluginRevertBlock` on a well-formed chain: `from` is the head, `to` the block below it,
+nil exactly when the genesis is reverted (`fromBlock.Number != 0` ⇔ there is a block below). -/
+theorem plugin_revert_target_is_the_block_below (hd : Blk) (tl : Chain) (hl : Linked (hd :: tl))
+    (hs : hd.hash ≠ hd.parent) :
+    handlePluginRevertBlock (hd :: tl)
+      = [.revertBlock hd.num hd.hash (tl.head?.map (fun b => (b.num, b.hash)))] ∧
+    (tl.head? = none ↔ hd.num = 0) := by
+  refine ⟨by rw [handle_linked hl hs]; cases tl <;> simp [stackOf], ?_⟩
+  have := Linked.head_num hl
+  cases tl <;> simp_all
+
+/-- WITNESS (the order of `revertTask`: plugin first, `revertHead` second): when `RevertHead` fails
+the plugin has already been told of a revert that did not happen — the chain is unchanged. Database
+faults are outside the property's quantifier; stated so that the model says what the code does. -/
+theorem plugin_told_of_a_revert_that_failed :
+    let g : Blk := ⟨0, 1, 0, true, 0, 0⟩
+    let x1 : Blk := ⟨1, 2, 1, true, 0, 0⟩
+    let s : Impl := { Impl.init [x1, g] with task := some 0 }
+    s.pluginCalls Cfg.asFound (.iter none false) = [.revertBlock 1 2 (some (0, 1))] ∧
+    (s.step Cfg.asFound (.iter none false)).1.node.chain = [x1, g] ∧
+    (s.step Cfg.asFound (.iter none false)).2 = [Obs.revertFailed 1 2] := by
+  decide
+
+-- non-vacuity: a run with a store, a reorg of depth 2 down to the genesis and a refused delivery;
+-- the hypotheses of the three theorems hold and the calls are the four commits.
+example :
+    let g : Blk := ⟨0, 1, 0, true, 0, 0⟩
+    let x1 : Blk := ⟨1, 2, 1, true, 0, 0⟩
+    let x2 : Blk := ⟨2, 3, 2, true, 0, 0⟩
+    let y0 : Blk := ⟨0, 11, 0, true, 0, 0⟩
+    let es : List Ev := [.deliver 2 x2 false, .deliver 3 ⟨3, 4, 3, false, 0, 0⟩ false,
+      .reorgDetected 3 (some ⟨0, 11⟩) (some y0), .iter none true, .iter none true, .iter (some y0) true,
+      .iter none true, .deliver 0 y0 false]
+    Linked [x1, g] ∧ NoSelf [x1, g] ∧ (∀ e ∈ es, EvNoSelf e) ∧
+    Impl.runCalls Cfg.asFound (Impl.init [x1, g]) es
+      = [.newBlock 2 3, .revertBlock 2 3 (some (1, 2)), .revertBlock 1 2 (some (0, 1)),
+         .revertBlock 0 1 none, .newBlock 0 11] := by
+  intro g x1 x2 y0 es
+  refine ⟨⟨rfl, rfl, rfl, rfl⟩, by simp [NoSelf, g, x1], ?_, by decide⟩
+  intro e he
+  simp only [es, List.mem_cons, List.not_mem_nil, or_false] at he
+  rcases he with rfl | rfl | rfl | rfl | rfl | rfl | rfl | rfl <;> simp [EvNoSelf, x2, y0]
 
 end Juno.C06.Props
